@@ -34,7 +34,9 @@ DeclsB == UNION {{WithTransient(D, mask) : mask \in (SUBSET (1..Len(D.fields))) 
 
 \* C: the spellings of Option the macro does / does not recognise
 OptIdx(D) == {i \in 1..Len(D.fields) : D.fields[i].t.k = "opt"}
-DeclsC == UNION {{[D EXCEPT !.fields[i].sp = sp] : i \in OptIdx(D), sp \in {"std", "core", "alias"}} : D \in SmallShapes}
+\* ("paren": written (Option<T>); "tmpl": the type reaches the derive through a `$t:ty` fragment of a macro_rules
+\* template, i.e. inside an invisible group - both are Option to the macro)
+DeclsC == UNION {{[D EXCEPT !.fields[i].sp = sp] : i \in OptIdx(D), sp \in {"std", "core", "alias", "paren", "tmpl"}} : D \in SmallShapes}
 
 \* D: evolution annotations (deep histories are MC_Evo's business)
 LastF(D) == D.fields[Len(D.fields)]
@@ -65,7 +67,12 @@ EvoAddMiddleOptLast(D) ==
 DeclsD2 == {EvoAddFirstOptSecond(D) : D \in {X \in SmallShapes : Len(X.fields) >= 2 /\ X.fields[2].t.k = "opt"}}
            \cup {EvoOptFirstAddLast(D) : D \in {X \in SmallShapes : Len(X.fields) >= 2 /\ X.fields[1].t.k = "opt"}}
            \cup {EvoAddMiddleOptLast(D) : D \in {X \in SmallShapes : Len(X.fields) = 3 /\ LastF(X).t.k = "opt"}}
-DeclsD == DeclsD2 \cup {EvoAddedLast(D) : D \in SmallShapes} \cup {EvoRemovedGone(D) : D \in SmallShapes}
+\* the spellings of Option on a field that the history made optional (the reader path depends on the spelling)
+DeclsC2 == UNION {{[EvoOptFirst(D) EXCEPT !.fields[1].sp = sp] : sp \in {"std", "core", "paren", "tmpl"}} :
+                    D \in {X \in SmallShapes : X.fields[1].t.k = "opt"}}
+           \cup UNION {{[EvoAddedOptLast(D) EXCEPT !.fields[Len(D.fields)].sp = sp] : sp \in {"paren", "tmpl"}} :
+                    D \in {X \in SmallShapes : LastF(X).t.k = "opt"}}
+DeclsD == DeclsC2 \cup DeclsD2 \cup {EvoAddedLast(D) : D \in SmallShapes} \cup {EvoRemovedGone(D) : D \in SmallShapes}
           \cup {EvoAddOptRemove(D) : D \in SmallShapes}
           \cup {EvoOptFirst(D) : D \in {X \in SmallShapes : X.fields[1].t.k = "opt"}}
           \cup {EvoAddedOptLast(D) : D \in {X \in SmallShapes : LastF(X).t.k = "opt"}}
